@@ -164,6 +164,23 @@ CHECKS["C18"] = {
     "assumptions": ["backoff jitter disabled (RetryRandomization = 0)"],
 }
 
+CHECKS["C20"] = {
+    "pkg": "fakeh",
+    "quick": {"wall_s": 25, "race_wall_s": 10, "race_max_runs": 1000},
+    "thorough": {"wall_s": 300, "race_wall_s": 90, "race_max_runs": 1800},
+    "rule": "Scenario: fake-agent configuration with 1..6 values of every kind (int/uint/double ranges, delta ranges, sequential and random "
+            "option lists, strings, string lists, bools, deletes), repeats 1..5 or unbounded (cut by the client), initial timestamps and "
+            "delta bounds, per-value and global seeds, sync on/off, DisableEof, EnableDelay; STREAM / ONCE / POLL (0..2 triggers) client on a "
+            "simulated stream with window 0/1/4/64. Two engines are built from the same configuration and run concurrently under the seeded "
+            "scheduler. Oracles on what was handed to Send: reproducibility (the two sequences are identical), non-decreasing timestamps, "
+            "repeat counts, value ranges and delta steps, timestamp steps, sync after the first emission of every value, target stamping, "
+            "virtual inter-message gaps equal timestamp gaps with delays on. Non-trivial: >= 2 messages.",
+    "real": ["testing/fake/gnmi (Client engine), testing/fake/queue (instrumented)", "generated gNMI stubs", "protobuf runtime"],
+    "stub": ["gRPC transport (simgrpc stream)"],
+    "assumptions": ["numeric ranges far below 2^62 (the generator's Int63n(max-min+1) overflows beyond; an arithmetic limit of the test fake)",
+                    "an unbounded value always advances its timestamp (delta_max >= 1)"],
+}
+
 UNDER_CONSTRUCTION = "check under construction, not claimed yet"
 NOT_APPLICABLE = {p: UNDER_CONSTRUCTION for p in ["C%02d" % i for i in range(1, 21)]}
 NOT_APPLICABLE["C19"] = ("pure functions of their input (path indexing, value conversion): no schedule, clock, fault, peer or "
@@ -177,6 +194,14 @@ _SUB_NOTE = ("Trusts the harness's reading of paths (sim/gen), the cache referen
              "stream's gRPC semantics (FIFO, reliable, window-limited) and interval reasoning on global event stamps. Leaves that are only "
              "stream-compatible with a subscription (shorter than its path) are outside 'matching content' and not judged.")
 LEVELS = {
+    "C20": {
+        "text": "Seeded exploration of fake-target configurations with the engine's recv/send goroutines under the seeded scheduler and its "
+                "delays in virtual time; every message handed to Send is checked against the configuration, and two engines with the same "
+                "configuration and seed running concurrently must emit identical sequences (schedule independence). Evidence, not proof.",
+        "design_ref": "7 C20",
+        "note": "Trusts the harness's reading of the fake configuration proto. The scheduling-dependent part is small (recv/send goroutines, poll triggers, delays); most of the property is a function of the configuration.",
+        "technique": "deterministic simulation: seeded scheduler + virtual time + stream-invariant oracles + twin-engine reproducibility",
+    },
     "C18": {
         "text": "Seeded search over the moment of Close / cancellation relative to Subscribe (before it, inside the initDone hand-shake, during a "
                 "slow connect, while streaming, in back-off) and over scripted stream outcomes, in virtual time; termination is decided by "
